@@ -77,7 +77,7 @@ package keeper
 //@ forall d Str
 //@ ensures C01/book-and-bank-in-step: err == nil && notPoolAccount(sender, poolId) ==> reserveGap(ctx, poolId, d) == old(reserveGap(ctx, poolId, d))
 //@ ensures C01/other-pools-in-step: err == nil && p != poolId && notPoolAccount(sender, p) ==> reserveGap(ctx, p, d) == old(reserveGap(ctx, p, d))
-//@ callers-assumed callers keep the state only when this returns nil: the message handler returns the error, leveragelp propagates it or runs on a cache context (their chains are closed under C02 and C08)
+//@ callers-assumed C01: callers keep the state only when this returns nil: the message handler returns the error, leveragelp propagates it or runs on a cache context (their chains are closed under C02 and C08)
 
 //@ func (Keeper).ExitPool
 //@ forall p Int
@@ -90,7 +90,7 @@ package keeper
 //@ assumes uniqueAssetDenoms(ammPoolRow(ctx, poolId))
 //@ ensures C01/book-and-bank-in-step-unless-the-asset-is-drained: err == nil && notPoolAccount(sender, poolId) && old(reserveOf(ammPoolRow(ctx, poolId), d)) != amt(exitCoins, d) ==> reserveGap(ctx, poolId, d) == old(reserveGap(ctx, poolId, d))
 //@ ensures C01/other-pools-in-step: err == nil && p != poolId && notPoolAccount(sender, p) ==> reserveGap(ctx, p, d) == old(reserveGap(ctx, p, d))
-//@ callers-assumed callers keep the state only when this returns nil: the message handler returns the error, leveragelp propagates it or runs on a cache context (their chains are closed under C02 and C08)
+//@ callers-assumed C01: callers keep the state only when this returns nil: the message handler returns the error, leveragelp propagates it or runs on a cache context (their chains are closed under C02 and C08)
 
 // ---- C08 (leveragelp AddPool): a stored amm pool sits under its own id --------------------------------
 //@ rowinv C08/ammPoolKey table amm:types.KeyPrefix/types.PoolKey row types.Pool : row.PoolId == key1
@@ -183,7 +183,7 @@ package keeper
 //@ ensures C02/total-shares-track-supply: err == nil ==> shareGap(ctx, p) == old(shareGap(ctx, p))
 //@ ensures C02/minted-shares-go-into-custody: err == nil ==> sharesOutsideCustody(ctx, p) == old(sharesOutsideCustody(ctx, p))
 //@ forall d Str
-//@ callers-assumed the message handler returns the error
+//@ callers-assumed C01: the message handler returns the error
 //@ ensures C01/other-pools-in-step: err == nil && p != result0 && notPoolAccount(unbech32(msg.Sender), p) ==> reserveGap(ctx, p, d) == old(reserveGap(ctx, p, d))
 //@ ensures C01/new-pool-in-step: err == nil ==> reserveGap(ctx, result0, d) == old(reserveGap(ctx, result0, d))
 
@@ -266,8 +266,9 @@ package keeper
 //@ forall p Int
 //@ ensures C02/total-shares-track-supply: err == nil ==> shareGap(ctx, p) == old(shareGap(ctx, p))
 //@ forall d Str
-//@ ensures C01/reserves-untouched: err == nil ==> reserveGap(ctx, p, d) == old(reserveGap(ctx, p, d))
-//@ callers-assumed the message handler returns the error
+//@ ensures C01/reserves-untouched: err == nil ==> reserveGap(ctx, poolId, d) == old(reserveGap(ctx, poolId, d))
+//@ ensures C01/other-pools-untouched: err == nil && p != poolId ==> reserveGap(ctx, p, d) == old(reserveGap(ctx, p, d))
+//@ callers-assumed C01: the message handler returns the error
 
 //@ func (msgServer).UpdatePoolParams
 //@ entry
